@@ -330,13 +330,14 @@ def _shard(sh, ctx):
 def _shard_subsets(sh, ctx):
     import nbdime
     import nbdime.diffing.notebooks as nbs
-    kind, sname, subsets = sh
+    kind, sname, subsets = sh[:3]
+    forms = sh[3] if len(sh) > 3 else ('negative-flags', 'positive-flags', 'config-booleans', 'ignore-mapping')
     seed, d1 = _G['space'][sname]
     work = tempfile.mkdtemp(prefix='c14-', dir=isolate.scratch_root())
     try:
         for S in subsets:
             S = frozenset(S)
-            for form in ('negative-flags', 'positive-flags', 'config-booleans', 'ignore-mapping'):
+            for form in forms:
                 if not configure(form, S, work):
                     continue
                 ctx.seen('forms', form)
@@ -402,11 +403,35 @@ def run(tier, seed):
         nstates += 1 + len(d1)
         isolate.reset_globals()
         plain[n] = {label: canon(json.loads(json.dumps(nbdime.diff_notebooks(U.to_node(S[n]), U.to_node(x))))) for label, tags, x in d1}
+    # threshold family: payload sizes around the differ's size cut-offs (an output that stops being aligned is reported as removed + added, ignored
+    # parts included); every subset for the small sizes, the subsets of {details, metadata, outputs} and the edits touching them for the large ones
+    thr_subsets = [c for r in range(4) for c in itertools.combinations(('details', 'metadata', 'outputs'), r)]
+    thr = {}
+    for n in U.threshold_sizes():
+        if n == 9999 or (tier == 'quick' and n in (999, 1001, 63, 65)):
+            continue
+        tseed, td1 = U.threshold_family(n)
+        if n >= 9999:
+            td1 = [(l, t, x) for l, t, x in td1 if set(t['cats']) & {'details', 'metadata'} or t.get('multi') or l.endswith(('html:mid', 'stream:last'))]
+        name = 'Sthr%d' % n
+        thr[name] = n
+        space[name] = (tseed, td1)
+        nstates += 1 + len(td1)
+        trans += len(td1)
+        isolate.reset_globals()
+        plain[name] = {label: canon(json.loads(json.dumps(nbdime.diff_notebooks(U.to_node(tseed), U.to_node(x))))) for label, tags, x in td1}
     isolate.reset_globals()
     _G['space'] = space
     _G['plain'] = plain
     subsets = [c for r in range(len(CATS) + 1) for c in itertools.combinations(CATS, r)]
     shards = []
+    for name, n in sorted(thr.items()):
+        if n >= 9999:
+            for S in thr_subsets:
+                shards.append(('subsets', name, [S], ('negative-flags', 'ignore-mapping')))
+        else:
+            for ch in chunked(thr_subsets if n > 100 else subsets, 4):
+                shards.append(('subsets', name, ch, ('negative-flags', 'ignore-mapping') if n > 100 else ('negative-flags', 'positive-flags', 'config-booleans', 'ignore-mapping')))
     for n in names:
         for ch in chunked(subsets, 32):
             shards.append(('subsets', n, ch))
@@ -420,7 +445,8 @@ def run(tier, seed):
               'edit of the seed; the configuration is installed through the real nbdiff parser / config file; non-trivial = at least one category ignored'),
         evaluations=ev, distinct_nontrivial=ctx.counters['nontrivial'],
         states=nstates, transitions=trans, traces_validated=ev, exhaustive=True,
-        bounds={'tier': tier, 'subsets': len(subsets), 'seeds': {n: len(space[n][1]) for n in names}},
+        bounds={'tier': tier, 'subsets': len(subsets), 'seeds': {n: len(space[n][1]) for n in names},
+                'threshold_family': {k: len(space[k][1]) for k in sorted(thr)}, 'threshold_subsets': len(thr_subsets)},
         assumptions=['category regions: sources=/cells/*/source, outputs=/cells/*/outputs, attachments=/cells/*/attachments, '
                      'metadata=/metadata,/cells/*/metadata,/cells/*/outputs/*/metadata, id=/cells/*/id, details=execution_count on cells and outputs',
                      'whole-cell and whole-output insertions/removals carry complete items and are exempt from clause (i) unless their own path is in an ignored region',
